@@ -380,3 +380,90 @@ def temporaries_probe(rec, prop, rounds=24):
             rec.violation("identity", {"temporaries_probe": what, "index": idx, "property": prop}, f"short-lived values in one scope, check #{idx} ({what}): {got}, expected {want} - the value was judged by what an earlier, dead object of the same address looked like" if want == "no" else f"short-lived values in one scope, check #{idx} ({what}): {got}, expected {want}", mechanism=f"temporary-{what}-{got}")
             return False
     return True
+
+
+_ERRFMT_SRC = '''
+import numpy as np
+from jaxtyping import Float, jaxtyped, config, TypeCheckError
+N = np.ndarray
+LOG = []
+def A(n):
+    return np.zeros((n,), dtype="float32")
+@jaxtyped(typechecker=CHECKER)
+def inner(x: Float[N, "a"], y: Float[N, "a"]):
+    LOG.append("inner-body-ran")
+    return "inner-ret"
+class CallsBack:
+    """an argument whose repr - which the library prints in its error message - itself uses decorated code"""
+    def __repr__(self):
+        LOG.append("repr")
+        try:
+            inner(A(2), A(3))
+            LOG.append("inner-ill-typed-accepted")
+        except TypeCheckError:
+            LOG.append("inner-ill-typed-rejected")
+        LOG.append(("inner-well-typed", inner(A(2), A(2))))
+        return "CallsBack()"
+class SwitchesOff:
+    """an argument whose repr switches checking off (config.update is documented to take effect before the next call)"""
+    def __repr__(self):
+        LOG.append("repr")
+        config.update("jaxtyping_disable", True)
+        return "SwitchesOff()"
+@jaxtyped(typechecker=CHECKER)
+def outer(x: Float[N, "a"], y: Float[N, "a"], z: object = None):
+    LOG.append("outer-body-ran")
+    return "outer-ret"
+def scenario(kind):
+    del LOG[:]
+    try:
+        outer(A(2), A(3), CallsBack() if kind == "calls-back" else SwitchesOff())
+        LOG.append("outer-ill-typed-accepted")
+    except TypeCheckError as e:
+        LOG.append("outer-ill-typed-rejected")
+    # afterwards, at ordinary level
+    try:
+        LOG.append(("after", outer(A(2), A(3))))
+    except TypeCheckError:
+        LOG.append(("after", "rejected"))
+    finally:
+        config.update("jaxtyping_disable", False)
+    try:
+        LOG.append(("after-switch-on", outer(A(2), A(3))))
+    except TypeCheckError:
+        LOG.append(("after-switch-on", "rejected"))
+    return list(LOG)
+'''
+
+
+def error_formatting_probe(rec, prop):
+    """What happens WHILE the library formats the message of a TypeCheckError (it prints the arguments, i.e. runs user
+    __repr__ code): decorated calls made from there are checked like any other, and a config.update made from there
+    sticks.  Both typecheckers."""
+    import beartype
+    import typeguard
+
+    for cname, checker in (("typeguard", typeguard.typechecked), ("beartype", beartype.beartype)):
+        ns = {"CHECKER": checker}
+        exec_src(_ERRFMT_SRC, ns)
+        for kind, want in (
+            ("calls-back", ["repr", "inner-ill-typed-rejected", "inner-body-ran", ("inner-well-typed", "inner-ret"), "outer-ill-typed-rejected", ("after", "rejected"), ("after-switch-on", "rejected")]),
+            ("switches-off", ["repr", "outer-ill-typed-rejected", "outer-body-ran", ("after", "outer-ret"), ("after-switch-on", "rejected")]),
+        ):
+            got = ns["scenario"](kind)
+            g = [tuple(e) if isinstance(e, list) else e for e in got]
+            # fold repeated repr blocks
+            block = want[: want.index("outer-ill-typed-rejected")]
+            i = 0
+            folded = []
+            while g[i : i + len(block)] == block:
+                folded = list(block)
+                i += len(block)
+            folded += g[i:]
+            rec.count("error_formatting.scenarios")
+            rec.case(("error-formatting", cname, kind), True)
+            if folded != want:
+                mech = "call-made-while-formatting-an-error-not-checked" if kind == "calls-back" else "config-update-made-while-formatting-an-error-lost"
+                rec.violation("during-error-formatting", {"error_formatting_probe": kind, "checker": cname, "property": prop, "log": [list(e) if isinstance(e, tuple) else e for e in got]}, f"[{cname}] {kind}: observed {got}, expected {want} (repr block possibly repeated)", mechanism=mech)
+                return False
+    return True
